@@ -5,5 +5,6 @@ CONSTANTS
  CheckMode = "aggonly"
  MCCfgs <- Cfg3v2one
  MaxForge = 1
+ Combine = FALSE
 INVARIANTS I1_LockSound
 CHECK_DEADLOCK FALSE
